@@ -26,7 +26,7 @@ def kernel_files(repo):
 def _digest(paths, extra=b""):
     h = hashlib.sha256(extra)
     for p in paths:
-        h.update(p.encode())
+        h.update(os.sep.join(p.split(os.sep)[-2:]).encode())       # position inside the package, not the checkout
         with open(p, "rb") as f:
             h.update(f.read())
     return h.hexdigest()[:24]
@@ -58,7 +58,7 @@ def _cache_put(key, obj):
             pickle.dump(obj, f, protocol=pickle.HIGHEST_PROTOCOL)
         os.replace(tmp, os.path.join(CACHE, key + ".pkl"))
         old = sorted((os.path.join(CACHE, f) for f in os.listdir(CACHE) if f.endswith(".pkl")), key=os.path.getmtime)
-        for p in old[:-40]:          # scratch-copy variants leave one entry each: keep the cache bounded
+        for p in old[:-400]:          # scratch-copy variants leave one entry each: keep the cache bounded
             os.remove(p)
     except Exception:
         pass
@@ -95,12 +95,29 @@ def load(repo):
     """-> (fns: qualified name -> fn dict, protos: name -> proto dict, files)"""
     files = kernel_files(repo)
     hdrs = sorted(glob.glob(os.path.join(repo, "src", "hydrodiy", "*", "*.h")))
-    key = "cparse_" + _digest(files + hdrs, _engine_digest())
-    got = _cache_get(key)
-    if got is not None:
-        return got
-    with mp.get_context("fork").Pool(min(16, len(files))) as pool:
-        res = pool.map(_parse_one, files)
+    # one cache entry per kernel file, keyed by content (file, every header, engine) and the path relative to the package: a scratch copy
+    # of the repository re-parses only the files its patch touches
+    eng = _engine_digest()
+    hd = hashlib.sha256(eng)
+    for h_ in hdrs:
+        hd.update(os.sep.join(h_.split(os.sep)[-2:]).encode())
+        with open(h_, "rb") as f:
+            hd.update(f.read())
+    keys = {}
+    for f_ in files:
+        h = hashlib.sha256(hd.digest())
+        h.update(os.sep.join(f_.split(os.sep)[-2:]).encode())
+        with open(f_, "rb") as f:
+            h.update(f.read())
+        keys[f_] = "cfile_" + h.hexdigest()[:24]
+    have = {f_: _cache_get(keys[f_]) for f_ in files}
+    todo = [f_ for f_ in files if have[f_] is None]
+    if todo:
+        with mp.get_context("fork").Pool(min(16, len(todo))) as pool:
+            for f_, r_ in zip(todo, pool.map(_parse_one, todo)):
+                have[f_] = r_
+                _cache_put(keys[f_], r_)
+    res = [have[f_] for f_ in files]
     fns, protos = {}, {}
     for rel, f, p in res:
         for n, fn in f.items():
@@ -110,9 +127,7 @@ def load(repo):
             fn["qname"] = q
             fns[q] = fn
         protos.update(p)
-    out = (fns, protos, [os.sep.join(f.split(os.sep)[-2:]) for f in files])
-    _cache_put(key, out)
-    return out
+    return (fns, protos, [os.sep.join(f.split(os.sep)[-2:]) for f in files])
 
 
 def callees(node, acc=None):
